@@ -108,24 +108,24 @@ TABLE = {
 
 # obligations added while testing the checks against independent seeded changes and generated sweeps (DESIGN.md 11.5-11.9)
 ADDED = {
-    "C01": "failures raised on the trio thread hop into the loop thread only through thread-safe primitives; the runner mapping is cleared after close-all (also when the join raises); the task registry is a strong container whose entries are removed only by the monitor of the finished task; OrphanedReturn's constructor is total; the termination rules of C02 (supervisor, close-all, runner shutdown) hold",
+    "C01": "failures raised on the trio thread hop into the loop thread only through thread-safe primitives; the runner mapping is emptied on EVERY exit of the supervising coroutine (graceful stop, failure, interrupt, cancellation); the task registry is a strong container whose entries are removed only by the monitor of the finished task; OrphanedReturn's constructor is total; the termination rules of C02 (supervisor, close-all, runner shutdown) hold",
     "C02": "a KeyboardInterrupt at the join is absorbed after close-all; the final join of close-all waits for ALL runner tasks (gather with return_exceptions=True / wait ALL_COMPLETED); no polling or looping over payload threads; the submit channel is not cloned; BaseRunner.run clears the stopped flag before managing payloads and sets it on every exit, stop() reads that flag",
-    "C03": "argument binding does not depend on a forked condition over the argument values; the hand-over channel is unbounded; only the trio run writes channel / token",
+    "C03": "argument binding does not depend on a forked condition over the argument values; the hand-over channel is unbounded; only the trio run writes channel / token; nothing on the registration chain formats the payload eagerly (a raising __repr__ must not escape from adopt); the unit registry is a weakref.WeakSet; O3.10 the queue-or-register decision is atomic with the switch to direct registration (OPEN KNOWN FINDING on the current tree, see known_findings.json)",
     "C04": "the published __signature__ is exactly one leading parameter plus the raw class's own parameters (other sources, an inverted guard or a dead guard count as not published); the reduce idiom of the pool branch folds right to left",
-    "C05": "child translations receive only where= (no construct kwargs leak downwards); the shared template rules of C04 and the structure rules of C19 hold",
+    "C05": "child translations receive only where= (no construct kwargs leak downwards); the shared template rules of C04 and the structure rules of C19 hold; the YAML document is read while its stream is open (O13.7)",
     "C06": "the median-of-three spelling of the clamp is the same clamp; fmod-based floors are rejected, divmod-based ones accepted",
     "C07": "every constructor path binds a fresh container of the given children and initialises the stored demand; the total weight is the un-thresholded sum; getters return a value on every path",
-    "C08": "the range table is {(0, inf): base} without rules and otherwise zip([0,*T],[*T,inf],[base,*R]) over (T,R)=zip(*sorted(rules)) entered into the returned dict, stored by the selector's constructor in the attribute get_rule reads (term-level, not text); add records exactly (supply, rule) and returns the rule, the skeleton builds Stepwise(target, base, *rules[, interval]), Stepwise binds target, interval and RangeSelector(base, *rules); sorts are ascending; slaves are re-targeted before validation",
-    "C09": "decoration and flavour of every service class; the step's effect precedes the sleep; no class-level attribute shadows a step method; Buffer binds its target and starts from the target's demand; the reap rules of C15 hold for FactoryPool",
+    "C08": "the range table is {(0, inf): base} without rules and otherwise zip([0,*T],[*T,inf],[base,*R]) over (T,R)=zip(*sorted(rules)) entered into the returned dict, stored by the selector's constructor in the attribute get_rule reads (term-level, not text); add records exactly (supply, rule) and returns the rule, the skeleton builds Stepwise(target, base, *rules[, interval]), Stepwise binds target, interval and RangeSelector(base, *rules); sorts are ascending; slaves are re-targeted before validation; the table is not a mutable object shared on the class; ranges come from overlapping consecutive bounds",
+    "C09": "decoration and flavour of every service class; the step's effect precedes the sleep; no class-level attribute shadows a step method; Buffer binds its target and starts from the target's demand; the reap rules of C15 hold for FactoryPool; no step orders children (or tuples containing them) without a key; the Stepwise range table covers [0, inf) without gaps (rules O8.4 / O8.6 of C08)",
     "C10": "own-class helpers are inlined; besides four fixed classes, one exception per class named by a handler on the chain is injected at the payload (a handler meant for the machinery must not swallow or rewrite the same class raised by the payload); an own raise is accepted only as the look-before-you-leap spelling of the subscription's KeyError",
-    "C11": "no function whose context includes LOOP or TRIO calls a blocking threading primitive; trio.run either called in a sync helper handed to run_in_executor by manage_payloads or handed directly as run_in_executor(None, trio.run, entry); one nursery opened once inside the functions owned by the trio run; no threading lock is both held across an unbounded wait (execute's wait, join, blocking from_thread call) and taken on the loop / trio thread",
-    "C12": "every polling cycle passes an awaited trio checkpoint; close-all clears the runner mapping and wakes manage_payloads; shutdown waits without timeout only for events the sweep sets inside the runtime (never for the end of accept itself); the stopped-flag protocol of BaseRunner.run / stop",
-    "C13": "disable_existing_loggers defaults to False before dictConfig; the whole fail-stop chain of C01 and the service typestate / sweep rules of C03 hold; run() adopts the loader exactly once before accept",
+    "C11": "no function whose context includes LOOP or TRIO calls a blocking threading primitive; trio.run either called in a sync helper handed to run_in_executor by manage_payloads or handed directly as run_in_executor(None, trio.run, entry); one nursery opened once inside the functions owned by the trio run; no threading lock is both held across an unbounded wait (execute's wait, join, blocking from_thread call) and taken on the loop / trio thread; a monitor calls the payload itself and never hands it to a spawn primitive of another context",
+    "C12": "every polling cycle passes an awaited trio checkpoint; the runner mapping is emptied on every exit of the supervising coroutine; closing wakes manage_payloads; shutdown waits without timeout only for events the sweep sets inside the runtime (never for the end of accept itself); the stopped-flag protocol of BaseRunner.run / stop",
+    "C13": "disable_existing_loggers defaults to False before dictConfig; the whole fail-stop chain of C01 and the service typestate / sweep rules of C03 hold; run() adopts the loader exactly once before accept; the YAML document is read while its stream is open (O13.7); nothing logs through the root-logger functions before logging.basicConfig (O13.8); a Python configuration is registered in sys.modules before it is executed (O13.9)",
     "C14": "the plugins are digested in the order they are given in; SectionPlugin.load returns on every path a plugin built from THIS entry point (name, loaded object); defaults of required/before/after are False/empty in both the decorator and PluginRequirements; the result of the topological sort is filtered to installed plugins",
-    "C15": "the spawned child is added to the active set exactly once per grow iteration; a demand write stores the value in the attribute the getter returns and the constructor initialises; the run loop shrinks iff supply > demand else grows with target=demand (shared with C09); getters return a value on every path",
+    "C15": "the spawned child is added to the active set exactly once per grow iteration; a demand write stores the value in the attribute the getter returns and the constructor initialises; the run loop shrinks iff supply > demand else grows with target=demand (shared with C09); getters return a value on every path; the excess is reduced before the child is released; no sort of children without a key",
     "C16": "",
     "C17": "escaped sets EQUAL the position's table (no over-escaping); shared default mappings are copied; record.args == ({},) continues with an empty mapping in both formatters; the time key is added iff enabled",
-    "C18": "",
+    "C18": "the YAML document is read while its stream is open (O13.7)",
     "C19": "child translations receive only where=; the pipeline translator's linking loop (shared with C05)",
 }
 EVERY = "O0.1: every function of the property's anchor files is interpreted once and reads no local or global name that no earlier statement on the path has bound (positive control embedded)"
@@ -186,7 +186,7 @@ def main():
         ],
         "checks": checks,
         "notes": "All checks are static (no code of /repo is executed). Exit 0 = held, 1 = VIOLATION, 2 = ANALYSIS-ERROR (undecided / anchor missing). "
-        "The thorough tier adds package-wide generalisations of the rules and a mutant/neutral self-test of the checker on a scratch copy (reported in the evidence, never deciding the exit code).",
+        "The thorough tier explores every loop one iteration further than the rules ask for (more paths, same obligations), applies O0.1 / O0.2 (unbound reads, unresolved self.x) to every function of the package instead of the property's anchor files, adds package-wide generalisations of rules, and runs the mutant / neutral / seeded self-test of the checker on scratch copies (reported in the evidence, never deciding the exit code).",
         "not_applicable": na,
     }
     with open(os.path.join(HERE, "MANIFEST.json"), "w") as f:
